@@ -9,6 +9,7 @@ import DracoProofs.SeqScheme
 import DracoProofs.GeneratedSeq
 import DracoProofs.GeneratedTable
 import DracoProofs.GeneratedPred
+import DracoProofs.GeneratedOpts
 /-
   C01 — encode/decode round trip, composed and machine checked for the SEQUENTIAL methods
   (`POINT_CLOUD_SEQUENTIAL_ENCODING`, `MESH_SEQUENTIAL_ENCODING`), against the decoder model
@@ -864,5 +865,41 @@ theorem source_parallelogramComponent_is_model (inData : Int → Int) (vn vp vo 
   ComputeParallelogramPrediction_component_eq_model inData vn vp vo c hd h1 h2 h3
 example : (Generated.ComputeParallelogramPrediction_component (fun i => 2^31 - 1 - i) 0 1 3 6).2.2.2.2 = [(1, -2147483647)] := by
   decide
+
+/-! ## the option-driven choices of the encoders are the source's -/
+open Generated in
+/-- `SelectPredictionMethod(att_id, options, encoder)` (prediction_scheme_encoder_factory.cc) — translated mechanically from
+    clang's AST of /repo on every run with every getter call as an input; control flow and thresholds are the repo's — is the
+    model's `SeqEnc.selectPredictionMethod` when the inputs are what the getters return on the model's geometry and options
+    (quantization bit counts within ±2^20, far beyond the 30 bits draco accepts) -/
+theorem source_selectPredictionMethod_is_model (isMesh : Bool) (o : SeqEnc.EncOpts) (atts : List Attribute)
+    (numPoints attId : Nat)
+    (hq1 : -2^20 < (o.att attId).quantBits ∧ (o.att attId).quantBits < 2^20)
+    (hq2 : ∀ pid, -2^20 < (o.att pid).quantBits ∧ (o.att pid).quantBits < 2^20) :
+    SelectPredictionMethod (attId : Int) o.speed (if isMesh then 1 else 0) (o.att attId).quantBits
+        ((atts.getD attId default).attType : Int) ((atts.getD attId default).numComponents : Int)
+        (SeqEnc.namedAttributeId atts 0).isSome
+        (SeqEnc.isIntegralType (atts.getD ((SeqEnc.namedAttributeId atts 0).getD 0) default).dataType)
+        (((SeqEnc.namedAttributeId atts 0).getD 0 : Nat) : Int)
+        (o.att ((SeqEnc.namedAttributeId atts 0).getD 0)).quantBits (numPoints : Int) =
+      SeqEnc.selectPredictionMethod isMesh o atts numPoints attId :=
+  SelectPredictionMethod_eq_model isMesh o atts numPoints attId hq1 hq2
+example : Generated.SelectPredictionMethod 0 1 1 (-1) 0 3 true false 0 11 50 = 4 := by decide
+
+open Generated in
+/-- `MeshEdgebreakerEncoder::InitializeEncoder`: the traversal method selected from `edgebreaker_method`, the speed and
+    `num_faces() < 1000` (both Edgebreaker features available) is the one of `EbEnc.traversalCoder` -/
+theorem source_traversalMethod_is_model (o : EbEnc.EbOpts) (numFaces : Nat) :
+    EbEnc.traversalCoder o numFaces =
+      (let m := MeshEdgebreakerEncoder.InitializeEncoder_method true true (decide ((numFaces : Int) < 1000))
+                  o.edgebreakerMethod o.base.speed
+       if m == 0 then some 0 else if m == 2 then some 2 else none) := InitializeEncoder_method_eq_model o numFaces
+
+open Generated in
+/-- `ExpertEncoder::EncodeMeshToBuffer`: the encoding method is the `encoding_method` option when set, otherwise sequential
+    exactly at speed 10 and Edgebreaker at every other speed (`Generated.meshEncodingMethod`) -/
+theorem source_meshEncodingMethod_is_model (forced speed : Int) :
+    ExpertEncoder.EncodeMeshToBuffer_method forced speed = meshEncodingMethod forced speed :=
+  EncodeMeshToBuffer_method_eq_model forced speed
 
 end Draco.C01
